@@ -102,7 +102,15 @@ func Glob(pattern, dst string, ignoreMatchers bool) (map[string]string, error) {
 		}
 	}
 
-	matches, err := fileglob.Glob(pattern, append(options, fileglob.MaybeRootFS)...)
+	var matches []string
+	var err error
+	if fi, lerr := os.Lstat(literal); lerr == nil && fi.Mode()&os.ModeSymlink != 0 {
+		// a pattern that names a symbolic link matches the link itself,
+		// wherever it points and however the path to it is spelled
+		matches = []string{literal}
+	} else {
+		matches, err = fileglob.Glob(pattern, append(options, fileglob.MaybeRootFS)...)
+	}
 	if err != nil {
 		if errors.Is(err, os.ErrNotExist) {
 			return nil, err
@@ -118,13 +126,13 @@ func Glob(pattern, dst string, ignoreMatchers bool) (map[string]string, error) {
 	files := make(map[string]string)
 	prefix := literal
 	// the prefix may not be a complete path or may use glob patterns, in that case use the parent directory
-	if _, err := os.Stat(prefix); errors.Is(err, fs.ErrNotExist) || (fileglob.ContainsMatchers(pattern) && !ignoreMatchers) {
+	if _, err := os.Lstat(prefix); errors.Is(err, fs.ErrNotExist) || (fileglob.ContainsMatchers(pattern) && !ignoreMatchers) {
 		prefix = filepath.Dir(longestCommonPrefix(matches))
 	}
 
 	for _, src := range matches {
-		// only include files
-		if f, err := os.Stat(src); err == nil && f.Mode().IsDir() {
+		// only include files (a link to a directory is a link, not a directory)
+		if f, err := os.Lstat(src); err == nil && f.Mode().IsDir() {
 			continue
 		}
 
